@@ -301,17 +301,31 @@ pub fn c04_worker(ctx: &mut Ctx) {
 // C05
 
 pub fn five(case: &Case, f32_run: bool) -> Result<FiveResults, Failure> {
+    five_through(case, f32_run, Pairing::MM)
+}
+
+/// the five results of one operand pair, all obtained through one trait pairing (B-A through the mirrored one)
+pub fn five_through(case: &Case, f32_run: bool, pairing: Pairing) -> Result<FiveResults, Failure> {
+    let mirrored = match pairing {
+        Pairing::PM => Pairing::MP,
+        Pairing::MP => Pairing::PM,
+        p => p,
+    };
     Ok(FiveResults {
-        inter: run_any(&case.a, &case.b, Op::Intersection, f32_run, Pairing::MM)?,
-        union: run_any(&case.a, &case.b, Op::Union, f32_run, Pairing::MM)?,
-        a_minus_b: run_any(&case.a, &case.b, Op::Difference, f32_run, Pairing::MM)?,
-        b_minus_a: run_any(&case.b, &case.a, Op::Difference, f32_run, Pairing::MM)?,
-        xor: run_any(&case.a, &case.b, Op::Xor, f32_run, Pairing::MM)?,
+        inter: run_any(&case.a, &case.b, Op::Intersection, f32_run, pairing)?,
+        union: run_any(&case.a, &case.b, Op::Union, f32_run, pairing)?,
+        a_minus_b: run_any(&case.a, &case.b, Op::Difference, f32_run, pairing)?,
+        b_minus_a: run_any(&case.b, &case.a, Op::Difference, f32_run, mirrored)?,
+        xor: run_any(&case.a, &case.b, Op::Xor, f32_run, pairing)?,
     })
 }
 
 pub fn c05_check(case: &Case, f32_run: bool, w: &Witnesses) -> Result<usize, (String, String)> {
-    let r = five(case, f32_run).map_err(|f| (format!("failure:{}", f.symptom()), format!("{:?}", f)))?;
+    c05_check_through(case, f32_run, w, Pairing::MM)
+}
+
+pub fn c05_check_through(case: &Case, f32_run: bool, w: &Witnesses, pairing: Pairing) -> Result<usize, (String, String)> {
+    let r = five_through(case, f32_run, pairing).map_err(|f| (format!("failure:{}", f.symptom()), format!("{:?}", f)))?;
     let exact = if f32_run { case.exact_f32 } else { case.exact };
     let scale = if f32_run { case.scale() * 1e3 } else { case.scale() };
     check_consistency(w, &r, &case.a, &case.b, exact, scale, case.self_crossing).map_err(|m| ("consistency".to_string(), m))
@@ -331,9 +345,13 @@ pub fn c05_worker(ctx: &mut Ctx) {
         let w = witnesses(&case, case.tol(false));
         ctx.begin("mixed", i, "");
         ctx.evaluations += 1;
-        match c05_check(&case, false, &w) {
+        // the operations must be consistent through whichever trait pairing the caller uses: rotate through the applicable ones
+        let applicable: Vec<Pairing> = crate::iface::PAIRINGS.iter().cloned().filter(|p| p.applicable(&case.a, &case.b) && p.applicable(&case.b, &case.a)).collect();
+        let pairing = applicable[(i / 3) as usize % applicable.len()];
+        ctx.cnt(&format!("pairs_through_{}", pairing.name().replace(' ', "_")), 1);
+        match c05_check_through(&case, false, &w, pairing) {
             Ok(n) => ctx.cnt("witness_comparisons", 3 * n as u64),
-            Err((sym, detail)) => ctx.violation(&sym, &detail, boolean_replay("C05", &case, None, false, Pairing::MM, json!({}))),
+            Err((sym, detail)) => ctx.violation(&sym, &format!("[{}] {}", pairing.name(), detail), boolean_replay("C05", &case, None, false, pairing, json!({}))),
         }
         if !case.self_crossing {
             ctx.cnt("area_identities_checked", 4);
